@@ -340,8 +340,10 @@ pub fn main_for<C: Check>(check: C) -> ! {
             let n = args.get(1).and_then(|s| s.parse().ok()).unwrap_or(2000);
             audit(&check, n)
         }
-        Some("quick") | None => run_tier(&check, tier_from_env(Tier::Quick)),
-        Some("thorough") => run_tier(&check, tier_from_env(Tier::Thorough)),
+        // an explicit argument wins; VERIF_TIER only decides when no tier is given
+        Some("quick") => run_tier(&check, Tier::Quick),
+        Some("thorough") => run_tier(&check, Tier::Thorough),
+        None => run_tier(&check, tier_from_env(Tier::Quick)),
         Some(other) => {
             eprintln!("unknown argument {other}; expected quick|thorough|--replay <path>|--audit <n>");
             2
